@@ -846,22 +846,30 @@ def replay(ctx, payload):
 MANIFEST = {
 	'level_text': (
 		'Lean theorems over the model of the CATS parser (Model/Cats/Lexer.lean, Parser.lean, Printer.lean on cats-a\'s Syntax.lean), '
-		'Properties/C04.lean: parse_render (for every non-empty list of well-formed comment-free declarations - aliases, enums, structs with '
-		'every member form and every attribute form on enums, structs and members, any mix and order - parse (print ds) = ok ds, at character '
-		'level through line splitting, the Indenter, blocks, statement loops and all line parsers), its line-level parts (alias line, enum '
+		'Properties/C04.lean: parse_render (for every non-empty list of well-formed declarations - aliases, enums, structs with '
+		'every member form, every attribute form on enums, structs and members, and a documentation comment in normal form on any declaration, '
+		'enum value and member, any mix and order - parse (print ds) = ok ds, at character '
+		'level through line splitting, merging of # lines into comment tokens, the Indenter, blocks, statement loops with their pending comment, '
+		'Comment.__init__ and all line parsers), its special cases and line-level parts (alias line, enum '
 		'header and value, struct header, every member form, every struct and member attribute), legacy_of_parse, '
-		'parse_output_wf (for every document the declarations of a successful parse are well-formed), print_parse_fixpoint (for every document '
-		'that parses to comment-free declarations, parse (print (parse doc)) = parse doc, well-formedness derived not assumed), '
-		'comment_roundtrip (a comment in normal form is normalised back from its printed # lines), and the trivia theorems parse_crlf (all documents without carriage returns), parse_blank_lines, '
-		'tab_is_four_spaces / tab_or_four_spaces_same_line, decimal_numeral_roundtrip. The model is tied to catbuffer.lark / CatsLarkParser.py '
+		'parse_output_wf (for every document the declarations of a successful parse are well-formed, comments in normal form), '
+		'print_parse_fixpoint (for every document that parses to at least one declaration and no member-less struct, '
+		'parse (print (parse doc)) = parse doc, comments included, well-formedness derived not assumed), '
+		'parsed_comment_normal (every comment Comment.__init__ builds is in normal form), normal_comment_iff, comment_roundtrip / '
+		'comment_roundtrip_indented, comment_lines_one_token, the numeral theorems hex_numeral_value (0x + leading zeros + upper-case digits of n '
+		'reads n, all n), decimal_leading_zeros, hex_dec_same_value, hex_lowercase_not_numeral, decimal_numeral_roundtrip, and the trivia '
+		'theorems parse_crlf (all documents without carriage returns), parse_blank_lines, '
+		'tab_is_four_spaces / tab_or_four_spaces_same_line. The model is tied to catbuffer.lark / CatsLarkParser.py '
 		'/ ast.py by a differential run on grammar-directed generated documents (every declaration, member and attribute form, comments, blank '
 		'lines, LF/CRLF, tab/4-space, decimal/hex) and on every shipped .cats file, comparing objects, to_legacy_descriptor(), str(node) and '
 		'print-and-reparse; the property is also evaluated directly on the real parser against descriptors computed from the generated structure.'),
 	'level_note': (
 		'Trusted: Lean kernel + {propext, Classical.choice, Quot.sound}; hand-written model tied by differential execution only; lark\'s LALR engine '
-		'and contextual lexer are not modelled (the language and the objects are). Not proved: comments inside parse_render / print_parse_fixpoint (merging of comment lines, '
-		'attachment, dropping of free comments - only the text normalisation comment_roundtrip is proved); hexadecimal numerals in general; blank lines inside declarations and tab-vs-blank at document level. Known findings still '
+		'and contextual lexer are not modelled (the language and the objects are). print_parse_fixpoint keeps the hypotheses "at least one '
+		'declaration" and "no member-less struct" (both necessary). Not proved: dropping of free comments at document level (modelled and run only; '
+		'printed documents have none); blank lines inside declarations and tab-vs-blank at document level. Known findings still '
 		'open on the tree: Attribute.__str__ treats a property called `not` as a qualifier; a comment before an `inline X` member (or a member '
-		'whose name starts like a top-level keyword) makes the parser reject a well-formed struct.'),
+		'whose name starts like a top-level keyword) makes the parser reject a well-formed struct - the model accepts it (parse_render covers it), '
+		'the deviation of lark is the finding.'),
 	'technique': 'Lean 4 theorems over a hand-written model + differential correspondence with the Python implementation',
 }
